@@ -5,7 +5,7 @@ from ..core import bytesnf as B
 from ..core import guards as G
 from .common import where, reachable_fns, call_sites
 
-_COPYISH = {"Clone::clone", "Deref::deref", "AsRef::as_ref", "Borrow::borrow", "Into::into", "From::from", "ToOwned::to_owned"}
+_COPYISH = {"Clone::clone", "Deref::deref", "AsRef::as_ref", "Borrow::borrow", "Into::into", "From::from", "ToOwned::to_owned", "Vec::<T, A>::as_slice", "slice::<impl [T]>::to_vec", "GenericArray::<T, N>::as_slice", "String::as_str", "String::as_bytes"}
 
 
 def projection_root(t, allow_copy=True):
@@ -152,6 +152,28 @@ def adapter_calls(fn):
     return out
 
 
+def _census_dedups(P, g):
+    """Blocks of `dedup` calls whose receiver is not a list of inputs but the census of their enum variants
+    (`xs.iter().map(mem::discriminant).collect::<Vec<_>>()`): collapsing it drops no input."""
+    from . import guardrules as R
+
+    out = set()
+    ev = evaluate(g)
+    for bb, s_ in ev.sites.items():
+        if s_.callee[0] != "Vec::<T, A>::dedup" or len(s_.args) != 1:
+            continue
+        x = strip_sites(s_.args[0])
+        while x.op in ("ref", "deref"):
+            x = x.a[0]
+        if x.op == "call" and B.cname(x) in ("Iterator::collect", "FromIterator::from_iter") and len(x.a[1]) == 1:
+            m = x.a[1][0]
+            if m.op == "call" and B.cname(m) == "Iterator::map" and len(m.a[1]) == 2:
+                fnv = B.peel(m.a[1][1])
+                if fnv.op == "const" and fnv.a[0] == "fn" and str(fnv.a[1][0]).split("::")[-1] == "discriminant":
+                    out.add(bb)
+    return out
+
+
 def check_no_dropping_adapters(ctx, rule, P, fn_keys, allow=None, include_closures=True):
     """Deny-list: no element-dropping adapter in the given functions (and their closures).
     allow: {(fn_key, method): reason} for confirmed legitimate uses."""
@@ -165,10 +187,15 @@ def check_no_dropping_adapters(ctx, rule, P, fn_keys, allow=None, include_closur
         if include_closures:
             fs += [g for g in P.fns.values() if g.kind == "Closure" and (g.j.get("parent_key") or "").startswith(k)]
         for g in fs:
+            census = None
             for bb, name, path in adapter_calls(g):
                 n += 1
                 if name in ELEMENT_DROPPING:
                     ok = (k, name) in allow or (g.key, name) in allow
+                    if not ok and name == "dedup":
+                        census = _census_dedups(P, g) if census is None else census
+                        if bb in census:
+                            continue
                     ctx.ob(rule, "%s/%s" % (g.key, name), ok, "element-dropping/merging adapter `%s` in `%s`%s" % (name, g.key, (": allowed - " + allow.get((k, name), allow.get((g.key, name), ""))) if ok else " (every list element must reach the decision)"), where=where(g, bb))
     return n
 
@@ -510,6 +537,12 @@ def image_source(P, fn, ev, t):
             steps.append(B.cname(t))
             t = t.a[1][0]
             continue
+        if t.op == "call" and B.cname(t) in ("Index::index", "IndexMut::index_mut") and len(t.a[1]) == 2:
+            rg = B.peel(t.a[1][1])
+            if rg.op == "agg" and rg.a[0][0] == "adt" and rg.a[0][1] == "RangeFull":
+                steps.append("[..]")
+                t = t.a[1][0]
+                continue
         if t.op == "call" and B.cname(t) in _IMG_ITER:
             steps.append(B.cname(t))
             t = t.a[1][0]
@@ -524,11 +557,27 @@ def image_source(P, fn, ev, t):
                 t = t.a[2][1]
                 continue
             return None, "extend of a vector that already holds elements: %s" % show(base, 3)
+        if t.op == "phi":
+            # the vector is built differently on different ways in: every way must leave a 1:1 image of the same list -
+            # a vector left empty counts only where the list is known to be empty (`split_first` gave None, `is_empty`)
+            r_ = _image_of_phi(P, fn, ev, t)
+            if r_[0] is None:
+                return r_
+            steps.append("phi(%s)" % ", ".join(r_[1]))
+            t = r_[0]
+            continue
         if t.op == "loop":
             # a vector accumulated in a loop: the loop pushes into this very vector once on every way round
             init = t.a[2]
             while init.op in ("ref", "deref"):
                 init = init.a[0]
+            head = None
+            if init.op == "mutcall" and B.cname(init) == "Vec::<T, A>::push" and init.a[1] == 0 and len(init.a[2]) == 2:
+                # `v.push(f(first)); for x in rest { v.push(f(x)) }`: head pushed before the loop over the tail
+                i0 = init.a[2][0]
+                while i0.op in ("ref", "deref"):
+                    i0 = i0.a[0]
+                head, init = init.a[2][1], i0
             if not (init.op == "call" and B.cname(init) in ("Vec::<T>::new", "Vec::<T>::with_capacity")):
                 return None, "loop-carried value is not a freshly created vector: %s" % show(init, 3)
             header = t.a[0]
@@ -581,10 +630,110 @@ def image_source(P, fn, ev, t):
             if found is None:
                 return None, "no loop with header bb%s" % header
             steps.append("push-loop@bb%s" % header)
+            if head is not None:
+                whole = _tail_of(strip_sites(found))
+                if whole is None or not any((x.op == "index" and B._const_int(x.a[1]) == 0 and strip_sites(B.peel(x.a[0])) == whole) or (x.op == "cidx" and x.a[1] == 0 and not (len(x.a) > 2 and x.a[2]) and strip_sites(B.peel(x.a[0])) == whole) for x in subterms(strip_sites(head))):
+                    return None, "an element is pushed before the loop, and it is not the head of the list whose tail the loop walks: %s" % show(strip_sites(head), 4)
+                steps.append("head+tail")
+                t = whole
+                continue
             t = found
             continue
         break
     return strip_sites(t), steps
+
+
+def _tail_of(src):
+    """X when `src` iterates X[1..] (range index, `[first, rest @ ..]`, skip(1)), else None."""
+    t = src
+    for _ in range(8):
+        while t.op in ("ref", "deref"):
+            t = t.a[0]
+        if t.op == "call" and B.cname(t) in ("IntoIterator::into_iter", "slice::<impl [T]>::iter", "Iterator::copied", "Iterator::cloned") and len(t.a[1]) == 1:
+            t = t.a[1][0]
+            continue
+        break
+    if t.op == "call" and B.cname(t) == "Index::index" and len(t.a[1]) == 2:
+        rng = B.peel(t.a[1][1])
+        if rng.op == "agg" and rng.a[0][1] == "RangeFrom" and B._const_int(rng.a[1][0]) == 1:
+            return B.peel(t.a[1][0])
+    if t.op == "subslice" and t.a[3] is True and t.a[1] == 1 and t.a[2] == 0:
+        return B.peel(t.a[0])
+    if t.op == "call" and B.cname(t) == "Iterator::skip" and len(t.a[1]) == 2 and B._const_int(t.a[1][1]) == 1:
+        x = t.a[1][0]
+        for _ in range(4):
+            while x.op in ("ref", "deref"):
+                x = x.a[0]
+            if x.op == "call" and B.cname(x) in ("IntoIterator::into_iter", "slice::<impl [T]>::iter") and len(x.a[1]) == 1:
+                x = x.a[1][0]
+                continue
+            break
+        return B.peel(x)
+    return None
+
+
+def _says_empty(lits, X):
+    """One of the literals says the list X has no element."""
+    for atom, pol in lits:
+        if atom[0] != "atom":
+            continue
+        if atom[1] in ("switch", "switch_not") and hasattr(atom[2], "op") and atom[2].op == "discr":
+            c = B.peel(strip_sites(atom[2].a[0]))
+            if c.op == "call" and B.cname(c) in ("slice::<impl [T]>::split_first", "slice::<impl [T]>::split_last", "slice::<impl [T]>::first", "slice::<impl [T]>::last") and len(c.a[1]) == 1 and B.peel(c.a[1][0]) == X:
+                none = (atom[1] == "switch" and atom[3] == 0 and pol) or (atom[1] == "switch_not" and pol and tuple(atom[3]) == (1,)) or (atom[1] == "switch" and atom[3] == 1 and not pol)
+                if none:
+                    return True
+        if atom[1] == "term" and hasattr(atom[2], "op") and atom[2].op == "call" and B.cname(atom[2]) in ("slice::<impl [T]>::is_empty", "Vec::<T, A>::is_empty") and pol and B.peel(strip_sites(atom[2].a[1][0])) == X:
+            return True
+        if atom[1] == "cmp" and hasattr(atom[3], "op") and hasattr(atom[4], "op"):
+            a, b = strip_sites(atom[3]), strip_sites(atom[4])
+            c = B._const_int(b)
+            if a.op == "call" and B.cname(a) in ("slice::<impl [T]>::len", "Vec::<T, A>::len") and B.peel(a.a[1][0]) == X and c is not None:
+                if (atom[2], c, pol) in (("Eq", 0, True), ("Ne", 0, False), ("Lt", 1, True), ("Ge", 1, False), ("Gt", 0, False), ("Le", 0, True)):
+                    return True
+    return False
+
+
+def _image_of_phi(P, fn, ev, t):
+    cfg = fn.cfg
+    join = None
+    for j in sorted(ev.entry_state):
+        preds = [p for p, _ in cfg.pred.get(j, [])] if isinstance(cfg.pred, dict) else [p for p, _ in cfg.pred[j]]
+        if len(preds) < 2:
+            continue
+        for k, v in ev.entry_state[j].items():
+            if v is t and len({id(ev.exit_state[p].get(k)) for p in preds if p in ev.exit_state}) > 1:
+                join = (j, k, [p for p in preds if p in ev.exit_state])
+                break
+        if join:
+            break
+    if join is None:
+        return None, "alternatives of a merged value, and the merge point was not found"
+    j, k, preds = join
+    srcs, empties, steps = [], [], []
+    for p in preds:
+        v = ev.exit_state[p].get(k)
+        if v is None:
+            return None, "merged value undefined on the way from bb%d" % p
+        w = v
+        while w.op in ("ref", "deref"):
+            w = w.a[0]
+        if w.op == "call" and B.cname(w) in ("Vec::<T>::new", "Vec::<T>::with_capacity"):
+            empties.append(p)
+            continue
+        x, st = image_source(P, fn, ev, v)
+        if x is None:
+            return None, st
+        srcs.append(x)
+        steps.append("bb%d: %s" % (p, "/".join(st)))
+    if not srcs or any(x != srcs[0] for x in srcs[1:]):
+        return None, "the ways into bb%d do not leave images of one list" % j
+    X = B.peel(srcs[0])
+    for p in empties:
+        if not _says_empty(G.path_literals(ev, p, P), X):
+            return None, "the vector stays empty on the way from bb%d, where the list is not known to be empty" % p
+        steps.append("bb%d: empty list" % p)
+    return srcs[0], steps
 
 
 # ---------------------------------------------------------------------------
@@ -839,7 +988,17 @@ def accumulators(P, fn):
         accs = [b for b in sorted(body) if b in ev.sites and ev.sites[b].callee[0] in ("AddAssign::add_assign",)]
         for b in accs:
             srcs = [s for bb, s in R.loop_sources(fn) if bb in body]
-            out.append({"mode": "loop", "fn": fn, "bb": b, "lits": G.path_literals(ev, b, P, checks_only=True), "elem": strip_sites(ev.sites[b].args[1]), "source": srcs[0] if srcs else None, "every": all(cfg.dominates(b, s_) for s_ in latches), "cap": {}})
+            src0 = srcs[0] if srcs else None
+            if src0 is not None:
+                # `for i in c..x.len()`: the positions count as the elements only when what is added is built from x[i]
+                rng = B.peel(src0)
+                while rng.op == "call" and B.cname(rng) == "IntoIterator::into_iter" and len(rng.a[1]) == 1:
+                    rng = B.peel(rng.a[1][0])
+                if rng.op == "agg" and rng.a[0][0] == "adt" and rng.a[0][1] == "Range" and len(rng.a[1]) == 2:
+                    subj = _len_subject(rng.a[1][1])
+                    if subj is None or not _mentions_index(ev.sites[b].args[1], subj, None, next_site=True):
+                        src0 = None
+            out.append({"mode": "loop", "fn": fn, "bb": b, "lits": G.path_literals(ev, b, P, checks_only=True), "elem": strip_sites(ev.sites[b].args[1]), "source": src0, "every": all(cfg.dominates(b, s_) for s_ in latches), "cap": {}})
     for b, s in sorted(ev.sites.items()):
         if s.callee[0] not in ("Iterator::fold", "Iterator::try_fold") or len(s.args) != 3:
             continue
@@ -861,7 +1020,7 @@ def accumulators(P, fn):
         for gb, gs in sites:
             lits = R.subst_literals(G.path_literals(gev, gb, P, checks_only=True), cap, P)
             every = bool(okb) and all(g.cfg.dominates(gb, ob) for ob in okb)
-            out.append({"mode": s.callee[0].split("::")[-1], "fn": g, "bb": gb, "lits": lits, "elem": strip_sites(subst(gs.args[1], cap)), "source": strip_sites(s.args[0]), "every": every, "cap": cap})
+            out.append({"mode": s.callee[0].split("::")[-1], "fn": g, "bb": gb, "lits": lits, "elem": strip_sites(subst(gs.args[1], cap)), "source": strip_sites(s.args[0]), "every": every, "cap": cap, "outer": G.path_literals(ev, b, P, checks_only=True), "site_bb": b})
     return out
 
 
